@@ -77,6 +77,18 @@ def nesting_sweeps():
             "[(0-9223372036854775807)..9223372036854775807]", "[1 ? 2, 3]", "y = 0 || [", "&x.x=xx || [", "func g(c) { x = c.d = 2 }; g({})", "1 || [1,2][0:1]",
             "^st力量-1&&'a'", "x='abc'; x[3]", "x='" + "a" * 40 + "'; x[40]", "this.x = 5; this.x", "&a = d; a", "func g(){return d}; g()", "[x,2]\n[x,2]",
             "5\n{'a':1", "dct = b(d)a(3)", ".\n", "\xff", "if", "break", "`{% %}`", ""]
+    # prototype chains that run into a cycle (of length L, entered after a tail of T objects that are not on it): every kind of
+    # lookup must return (attribute missing / found on the way / built-in method / assignment / printing / comparison)
+    for L in (1, 2, 3):
+        for T in (0, 1, 2, 3):
+            defs = ["p0 = {'k0': 0}"] + [f"p{i} = {{'__proto__': p{i-1}, 'k{i}': {i}}}" for i in range(1, L)] + [f"p0.__proto__ = p{L-1}"]
+            prev = "p0"
+            for t in range(T):
+                defs.append(f"q{t} = {{'__proto__': {prev}, 't{t}': {t}}}")
+                prev = f"q{t}"
+            defs.append(f"a = {{'__proto__': {prev}}}" if T else "a = p0")
+            for look in ("a.foo", "a.k0", "a.keys()", "a.len()", "a.foo = 1; a.foo", "toStr(a) == toStr(a)", "a == a", "a.items().len()", "dir(a).len()", "a['foo']", "a.__proto__.foo"):
+                out.append("; ".join(defs) + "; " + look)
     return out
 
 
